@@ -22,6 +22,10 @@ def line (s : String) : String :=
         | .panic => "panic"
       s!"{cls} {o.peak} {o.reads}"
     | _, _ => "bad-op"
+  | ["frame", p] =>     -- the bytes writeMessage produces for this payload
+    match parseHex? p with
+    | some p => showHex (frame p)
+    | none => "bad-op"
   | _ => "bad-op"
 
 def main (h : IO.FS.Stream) : IO Unit := loopPure h line
